@@ -106,12 +106,22 @@ theorem applyBackward_frame {s s1 : State} {c : Change} {a r : List OutPoint}
     simp only [Option.some.injEq, Prod.mk.injEq] at h
     obtain ⟨rfl, _, _⟩ := h
     simp
-  case fundingConfirmed | unilateral =>
+  case unilateral =>
     split at h
     · simp only [Option.some.injEq, Prod.mk.injEq] at h
       obtain ⟨rfl, _, _⟩ := h
       simp
     · cases h
+  case fundingConfirmed =>
+    split at h
+    · simp only [Option.some.injEq, Prod.mk.injEq] at h
+      obtain ⟨rfl, _, _⟩ := h
+      simp
+    · split at h
+      · simp only [Option.some.injEq, Prod.mk.injEq] at h
+        obtain ⟨rfl, _, _⟩ := h
+        simp
+      · cases h
   all_goals
     split at h
     · cases h
@@ -377,12 +387,22 @@ theorem applyBackward_ds {s s1 : State} {c : Change} {a r : List OutPoint}
     simp only [Option.some.injEq, Prod.mk.injEq] at h
     obtain ⟨rfl, _, _⟩ := h
     simp [bwdDs1]
-  case fundingConfirmed | unilateral =>
+  case unilateral =>
     split at h
     · simp only [Option.some.injEq, Prod.mk.injEq] at h
       obtain ⟨rfl, _, _⟩ := h
       simp [bwdDs1]
     · cases h
+  case fundingConfirmed =>
+    split at h
+    · simp only [Option.some.injEq, Prod.mk.injEq] at h
+      obtain ⟨rfl, _, _⟩ := h
+      simp [bwdDs1]
+    · split at h
+      · simp only [Option.some.injEq, Prod.mk.injEq] at h
+        obtain ⟨rfl, _, _⟩ := h
+        simp [bwdDs1]
+      · cases h
   all_goals
     split at h
     · cases h
